@@ -1,7 +1,7 @@
 from checks_common import *
 
 CHECK = dict(
-    src=['harness/c20_faults.cpp'], variants=[P], level='fault_enumeration',
+    src=['harness/c20_faults.cpp'], variants=[P, S16], level='fault_enumeration',
     technique='complete enumeration of fault points (every truncation length, every k-th allocation failure, every stream failure offset, every position of a library-detected mid-operation error) executed on the real archives under worker supervision',
     level_text='For corpus documents in all four archives, memory and stream: every strict prefix of the input; "the k-th operator new fails" for every k of the fault-free run (pugixml through its allocator seam) for '
                'load and save; every byte offset at which the input streambuf starts to return EOF or to throw and at which the output streambuf starts to fail or to throw; CSV/array row-width mismatch at every row, '
